@@ -421,10 +421,27 @@ structure Schema (J : Type) where
   prods : List (String × Ref)
   md : List (String × Meta)
 
+/-- the elements of array field `p` from index `k` on, named `p.k`, `p.(k+1)`, … -/
+def indexed (p : Name) : Nat → List Ref → List Dep
+  | _, [] => []
+  | k, r :: rs => ⟨arrName p k, r⟩ :: indexed p (k + 1) rs
+
 /-- Struct.Dependencies(): connected scalar fields, then every element of every array field as `Field.i` -/
 def depsOf {V} (T : NodeType) (n : Node V) : List Dep :=
   T.scal.filterMap (fun p => (n.scal p.1).map (fun r => ⟨p.1, r⟩)) ++
-  T.arrs.flatMap (fun p => (n.arrs p.1).zipIdx.map (fun ri => ⟨arrName p.1 ri.2, ri.1⟩))
+  T.arrs.flatMap (fun p => indexed p.1 0 (n.arrs p.1))
+
+/-- on a list: irreflexive-asymmetric, transitive, and any two different elements are comparable -/
+structure StrictTotalOn {α} (lt : α → α → Bool) (l : List α) : Prop where
+  asymm : ∀ a ∈ l, ∀ b ∈ l, lt a b = true → lt b a = true → False
+  trans : ∀ a ∈ l, ∀ b ∈ l, ∀ c ∈ l, lt a b = true → lt b c = true → lt a c = true
+  total : ∀ a ∈ l, ∀ b ∈ l, a ≠ b → lt a b = true ∨ lt b a = true
+
+/-- what `decode_encode` needs from the comparator, for the dependency names of one node: a strict total order on
+    them (so that any correct sort has exactly one possible result) that puts `P.i` before `P.j` whenever i < j -/
+structure CmpOK {V} (cmp : Name → Name → Bool) (T : NodeType) (n : Node V) : Prop where
+  strict : StrictTotalOn cmp ((depsOf T n).map (·.name))
+  arrOrder : ∀ p ∈ T.arrs.map (·.1), ∀ i j, i < j → j < (n.arrs p).length → cmp (arrName p i) (arrName p j) = true
 
 def encodeParam {V J} (E : Env V J) (k : PKind) (p : Param V) : PData J :=
   match k with
@@ -588,6 +605,67 @@ def Graph.same {V J} [DecidableEq V] (E : Env V J) (metaEq : List (String × Met
   g.prods.length = g'.prods.length &&
   g.prods.all (fun kv => aget g'.prods kv.1 = some kv.2) &&
   metaEq g.md g'.md && g.hdr = g'.hdr
+
+/-! ### well-formedness (the invariant of `edit_history_wf`, the guard of `decode_encode`) -/
+
+/-- what the model needs from the registered types and the parameter codec.
+    Port names are Go struct field names: unique per struct, never contain a dot; parameter types have no inputs.
+    `law`: re-reading what was written for a value that was itself read (or is the factory default) gives it back. -/
+structure EnvOK {V J} (E : Env V J) : Prop where
+  scalNodup : ∀ ty T, E.types ty = some T → (T.scal.map (·.1)).Nodup
+  arrNodup : ∀ ty T, E.types ty = some T → (T.arrs.map (·.1)).Nodup
+  scalNoDot : ∀ ty T, E.types ty = some T → ∀ p ∈ T.scal.map (·.1), '.' ∉ p
+  arrNoDot : ∀ ty T, E.types ty = some T → ∀ p ∈ T.arrs.map (·.1), '.' ∉ p
+  paramNoPorts : ∀ ty T, E.types ty = some T → T.param.isSome → T.scal = [] ∧ T.arrs = []
+  law : ∀ ty j v, E.fromJ ty j = some v → E.fromJ ty (E.toJ v) = some v
+  dfltLaw : ∀ ty v, E.dflt ty = some v → E.fromJ ty (E.toJ v) = some v
+  valueDflt : ∀ ty T, E.types ty = some T → T.param = some .value → (E.dflt ty).isSome
+
+/-- reference `r` resolves in `g` to an output of value type `t` -/
+def RefOK {V J} (E : Env V J) (g : Graph V) (t : VTy) (r : Ref) : Prop :=
+  r.port = "Out" ∧ ∃ s ∈ g.nodes, s.id = r.node ∧ ∃ Ts, E.types s.ty = some Ts ∧ Ts.out = t
+
+def ParamOK {V J} (E : Env V J) (ty : TyName) (k : PKind) (p : Param V) : Prop :=
+  (∀ v, p.cur = some v → E.fromJ ty (E.toJ v) = some v) ∧
+  (∀ v, p.dflt = some v → E.fromJ ty (E.toJ v) = some v) ∧
+  (k = .value → p.dflt.isSome) ∧ (k = .file → p.dflt = E.dflt ty)
+
+structure NodeWF {V J} (E : Env V J) (g : Graph V) (n : Node V) : Prop where
+  idNe : n.id ≠ ""
+  ty : ∃ T, E.types n.ty = some T ∧
+    (∀ p r, n.scal p = some r → ∃ t, portTy T.scal p = some t ∧ RefOK E g t r) ∧
+    (∀ p r, r ∈ n.arrs p → ∃ t, portTy T.arrs p = some t ∧ RefOK E g t r) ∧
+    (match T.param, n.par with
+     | some k, some p => ParamOK E n.ty k p
+     | none, none => True
+     | _, _ => False)
+
+/-- ids unique and non-empty, every node of a registered type, every reference (wiring and producers) resolves
+    to a node of the graph with a matching output type, parameter payloads re-readable -/
+structure WF {V J} (E : Env V J) (g : Graph V) : Prop where
+  nodup : (g.nodes.map (·.id)).Nodup
+  nodes : ∀ n ∈ g.nodes, NodeWF E g n
+  prodsNodup : (g.prods.map (·.1)).Nodup
+  prods : ∀ kv ∈ g.prods, RefOK E g artTy kv.2
+
+/-! ### what a reload normalises: a parameter's applied value becomes its `Value()` -/
+
+def Param.norm {V} (p : Param V) : Param V := { p with cur := p.value }
+def Node.norm {V} (n : Node V) : Node V := { n with par := n.par.map Param.norm }
+def Graph.norm {V} (g : Graph V) : Graph V := { g with nodes := g.nodes.map Node.norm }
+
+/-- the binary payload (File / Image parameter content) node `n` contributes to the saved file's buffer -/
+def Node.payload {V J} (E : Env V J) (n : Node V) : Option V :=
+  match E.types n.ty with
+  | some T =>
+    match T.param, n.par with
+    | some .file, some p => p.value
+    | _, _ => none
+  | none => none
+
+/-- at most one File/Image parameter holds a payload: then every payload is the last buffer view of the saved file
+    (jbtf v0.2.0 `Bytes.Deserialize` reads to the end of the buffer; see `file_payload_concatenated`) -/
+def FilePayloadLast {V J} (E : Env V J) (g : Graph V) : Prop := (g.nodes.filterMap (Node.payload E)).length ≤ 1
 
 end GraphIO
 end PolyVerif
